@@ -170,3 +170,97 @@ def run(ctx):
                     and src(g.left) == f"self._likelihood({src(s0)})" and src(g.right) == src(b2.right) \
                     and src(s0).startswith("self._prior.draw_sample(") and src(b2.right).startswith("self._likelihood.draw_sample(")
     ctx.check("R13.2", f"{sp_.key}::right-hand side is prior(s) + likelihood noise with the gradient hint consistent with it", okq, det, sp_)
+
+
+def r13_3(ctx, m):
+    """SumOperator: the covariance of a sum is the sum of covariances, so the summands' samples must be ADDED."""
+    SU = m.cls(OPS + "sum_operator", "SumOperator")
+    ds = SU.methods["draw_sample"]
+    ctx.rule("R13.3", "SumOperator.draw_sample: the value returned is built from the summands' draw_sample results with adding "
+                      "combinators only (`+`, unite, flexible_addsub without negation); an overwriting merge (union/dict update) "
+                      "or a dropped summand loses covariance", floor=1)
+    cfg = cfg_of(ds)
+    rd = cfg.reaching_defs(ds.params())
+    rets = [n for n in cfg.nodes if n.kind == "stmt" and isinstance(n.ast, ast.Return) and n.ast.value is not None]
+    verdicts = []
+    seen = set()
+    has_draw = [False]
+
+    def shape(e, nid):
+        """True: sum of draws; False: definitely an overwriting merge; None: unknown"""
+        if isinstance(e, ast.Constant) and e.value is None:
+            return True
+        if isinstance(e, ast.Call) and call_name(e) == "draw_sample":
+            has_draw[0] = True
+            return True
+        if isinstance(e, ast.IfExp):
+            return both(shape(e.body, nid), shape(e.orelse, nid))
+        if isinstance(e, ast.BinOp) and isinstance(e.op, ast.Add):
+            return both(shape(e.left, nid), shape(e.right, nid))
+        if isinstance(e, ast.Call) and isinstance(e.func, ast.Attribute) and e.func.attr in ("unite", "__add__") and len(e.args) == 1:
+            return both(shape(e.func.value, nid), shape(e.args[0], nid))
+        if isinstance(e, ast.Call) and call_name(e) == "flexible_addsub" and len(e.args) == 3 and src(e.args[2]) == "False":
+            return both(shape(e.args[0], nid), shape(e.args[1], nid))
+        if isinstance(e, ast.Call) and call_name(e) in ("union", "update"):
+            return False
+        if isinstance(e, ast.Name):
+            defs = (rd.get(nid) or {}).get(e.id)
+            if not defs:
+                return None
+            out = True
+            for d in sorted(defs):
+                if (d, e.id) in seen:
+                    continue
+                seen.add((d, e.id))
+                dn = cfg.nodes[d]
+                if dn.kind == "stmt" and isinstance(dn.ast, ast.Assign) and len(dn.ast.targets) == 1 and isinstance(dn.ast.targets[0], ast.Name):
+                    out = both(out, shape(dn.ast.value, d))
+                elif dn.kind == "stmt" and isinstance(dn.ast, ast.AugAssign) and isinstance(dn.ast.op, ast.Add):
+                    out = both(out, both(shape(ast.Name(id=e.id, ctx=ast.Load()), d), shape(dn.ast.value, d)))
+                else:
+                    out = both(out, None)
+            return out
+        return None
+
+    def both(a, b):
+        if a is False or b is False:
+            return False
+        if a is None or b is None:
+            return None
+        return True
+
+    for r in rets:
+        verdicts.append((r, shape(r.ast.value, r.id)))
+    # loop-carried accumulation: a definition of the returned name inside a loop must read the name itself
+    overwrite = None
+    for r in rets:
+        if isinstance(r.ast.value, ast.Name):
+            nm = r.ast.value.id
+            for lp in [x for x in walk_no_nested(ds.node) if isinstance(x, ast.For)]:
+                inner = [st for st in ast.walk(lp) if isinstance(st, (ast.Assign, ast.AugAssign))
+                         and any(isinstance(t, ast.Name) and t.id == nm for t in (st.targets if isinstance(st, ast.Assign) else [st.target]))]
+                if inner and not any(isinstance(st, ast.AugAssign) or any(isinstance(x, ast.Name) and x.id == nm and isinstance(x.ctx, ast.Load)
+                                                                           for x in ast.walk(st.value)) for st in inner):
+                    overwrite = inner[0]
+    key = f"{ds.key}::samples of the summands are added"
+    if overwrite is not None:
+        ctx.bad("R13.3", key, f"`{short(overwrite)}` overwrites the accumulated sample in every iteration: only the last summand's "
+                              f"covariance survives", ds, overwrite)
+        return
+    if not rets:
+        ctx.und("R13.3", key, "no value returned", ds)
+    elif any(v is False for _, v in verdicts):
+        r = [r for r, v in verdicts if v is False][0]
+        ctx.bad("R13.3", key, f"`{short(r.ast)}` merges the summands' samples with an overwriting combinator", ds, r.ast)
+    elif all(v is True for _, v in verdicts) and has_draw[0]:
+        ctx.ok("R13.3", key, None, ds)
+    else:
+        ctx.und("R13.3", key, "combinator shape not recognised", ds)
+
+
+_run_c13b = run
+
+
+def run(ctx):  # noqa: F811
+    _run_c13b(ctx)
+    r13_3(ctx, ctx.model)
